@@ -841,7 +841,10 @@ def get_unique_label(label: str, labels: dict) -> tp.Tuple[str, dict]:
 
 def replace_in_expr(expr: Expr, replacements: dict):
     expr = expr.subs(replacements, simultaneous=True)
+    new_args = set(replacements.values())
     for arg_old in replacements:
-        if expr.count(arg_old):
+        # a symbol that is itself the replacement of another symbol (x -> x_v1, x_v1 -> x_v1_v1) has just been
+        # inserted by the simultaneous substitution and must not be replaced a second time
+        if arg_old not in new_args and expr.count(arg_old):
             expr = expr.replace(arg_old, replacements[arg_old])
     return expr
